@@ -36,6 +36,11 @@ SCHEMAS = {
     "csvh": b'c = [h, * r]\nh = [tstr, tstr]\nr = [tstr, uint]\n',
     "csvf": b'c = [* r]\nr = [tstr, uint .feature "fx"]\n',
     "undef": b'a = b\n',
+    # for the byte-exactness family (stdin bytes must reach the library unchanged)
+    "pair_ii": b'root = [int, int]\n',
+    "pair_it": b'root = [int, tstr]\n',
+    "pair_ib": b'root = [int, bstr]\n',
+    "int": b'root = int\n',
     # compiling schemas whose root is NOT the first rule (the root is the first type rule without generic
     # parameters, wherever it stands)
     "gen_first": b'message<t> = { body: t }\nroot = message<int>\n',
@@ -74,6 +79,37 @@ DOCS = {
     "dir": DIR,
     "missing": None,
 }
+
+BASE_DOCS = list(DOCS)       # the documents used by the general classes
+
+# Byte-exactness family: documents whose first / last byte has the value of an ASCII white-space (or
+# near white-space) character.  The tool must hand the bytes it read to the library unchanged; a
+# `trim` before the UTF-8 sniffing or before the library call truncates a CBOR item whose own last
+# byte is 0x20 (nint -1), 0x0a (uint 10), ... or the low byte of a multi-byte argument (seeded change
+# C18-4), and makes JSON with a trailing form feed acceptable.
+WS = [0x09, 0x0a, 0x0b, 0x0c, 0x0d, 0x20]
+EDGE = {}        # name -> (bytes, schemas on which it is run: one accepting, one rejecting)
+for _w in WS:
+    _h = "%02x" % _w
+    _b = bytes([_w])
+    EDGE["w_int_" + _h] = (bytes.fromhex("8201") + _b, ["pair_ii", "pair_it"])                      # [1, <9..13 | -1>]
+    EDGE["w_txt_" + _h] = (bytes.fromhex("82016261") + _b, ["pair_it", "pair_ii"])                  # [1, "a<ws>"]
+    EDGE["w_bst_" + _h] = (bytes.fromhex("820142ff") + _b, ["pair_ib", "pair_ii"])                  # [1, h'ff<ws>']
+    EDGE["w_a2_" + _h] = (bytes.fromhex("82011901") + _b, ["pair_ii", "pair_it"])                   # [1, 256 + ws]
+    EDGE["w_a4_" + _h] = (bytes.fromhex("82011a000100") + _b, ["pair_ii", "pair_it"])               # 4-byte argument
+    EDGE["w_a8_" + _h] = (bytes.fromhex("82011b00000001000000") + _b, ["pair_ii", "pair_ib"])       # 8-byte argument
+    EDGE["w_ind_" + _h] = (bytes.fromhex("9f01") + _b + b"\xff", ["pair_ii", "pair_it"])           # indefinite array, ws byte inside
+    EDGE["w_first_" + _h] = (_b + b"\xff", ["int", "uint"])                                        # first byte is the item (9..13 | -1), then junk
+    EDGE["w_tag_" + _h] = (b"\xc1" + _b, ["any", "pair_ii"])                                          # tag 1 on the integer <ws>
+    EDGE["w_nl_" + _h] = (bytes.fromhex("820102") + _b, ["pair_ii", "pair_it"])                     # complete item followed by a stray ws byte
+    EDGE["w_jt_" + _h] = (b"[1,-1]" + _b, ["pair_ii", "pair_it"])                                   # JSON + trailing ws (0b/0c are not JSON white space)
+    EDGE["w_jl_" + _h] = (_b + b"[1,-1]", ["pair_ii", "pair_it"])                                   # leading
+    EDGE["w_jb_" + _h] = (_b + b' [1, "a' + _b.replace(b"\n", b" ").replace(b"\r", b" ") + b'"] ' + _b, ["pair_it", "pair_ii"])
+EDGE["w_j_crlf"] = (b'\r\n {"n":1}\r\n\r\n', ["plain", "pair_ii"])
+EDGE["w_j_only_ws"] = (b' \n\t', ["any", "plain"])
+EDGE["w_c_only_20"] = (b'\x20', ["int", "uint"])              # the CBOR item -1 alone is UTF-8: sniffed as JSON text " "
+for _n, (_d, _s) in EDGE.items():
+    DOCS[_n] = _d
 
 FEATS = [None, ["fx"], ["fy"], ["fx", "fy"], ["zz", "fx"], ["zz"]]
 ROUTES = "jcs"
@@ -404,7 +440,7 @@ ROOT_DOCS = {
     "csvgen": {"j": ["j_arr"], "c": ["c_arr"], "s": ["s_ok", "s_bad", "s_q"]},
     "csvgrp": {"j": ["j_arr"], "c": ["c_arr"], "s": ["s_ok", "s_bad"]},
 }
-GOOD_DOCS = [d for d in DOCS if d not in ("missing", "dir", "nonutf")]
+GOOD_DOCS = [d for d in BASE_DOCS if d not in ("missing", "dir", "nonutf")]
 
 
 def mk(cmd="validate", ci=False, hdr=False, feats=None, schema="plain", j=(), c=(), s=(), stdin=None, style=0, cls=""):
@@ -418,7 +454,7 @@ def gen_invocations(rng, tier, wide=False):
     # (A) single-document sweep: every schema x document x route, configurations sampled
     configs = [(ci, hdr, f) for ci in (False, True) for hdr in (False, True) for f in FEATS]
     for sch in OK_SCHEMAS + ROOT_LATER:
-        for d in DOCS:
+        for d in BASE_DOCS:
             if sch in ROOT_LATER and not (full or wide) and rng.random() < 0.5:
                 continue
             # quick: two of the four routes per pair (one for the root-position schemas, which have their own class)
@@ -454,6 +490,14 @@ def gen_invocations(rng, tier, wide=False):
             # one multi-route invocation per schema: first document of each route
             invs.append(mk(ci=ci, feats=rng.choice(FEATS), schema=sch, j=ROOT_DOCS[sch]["j"][:1], c=ROOT_DOCS[sch]["c"][:1],
                            s=ROOT_DOCS[sch]["s"][:1], stdin=ROOT_DOCS[sch]["j"][0], style=rng.randrange(1 << 30), cls="root-position"))
+    # (B3) byte exactness, exhaustive on stdin: every EDGE document x its accepting and its rejecting schema x --stdin
+    #      (--ci alternating in quick, both in thorough), and once through --cbor / --json <file> for contrast
+    for k, (name, (data, schemas)) in enumerate(sorted(EDGE.items())):
+        for n, sch in enumerate(schemas):
+            for ci in ((False, True) if full or wide else ((k + n) % 2 == 1,)):
+                invs.append(mk(ci=ci, schema=sch, stdin=name, style=rng.randrange(1 << 30), cls="byte-exact"))
+        file_route = "j" if name.startswith("w_j") else "c"
+        invs.append(mk(ci=rng.random() < 0.5, schema=schemas[0], style=rng.randrange(1 << 30), cls="byte-exact", **{file_route: [name]}))
     # (C) schemas that do not compile / cannot be read / are missing, on every route
     for sch in BAD_SCHEMAS:
         for ci in (False, True):
@@ -528,6 +572,11 @@ def gen_invocations(rng, tier, wide=False):
 
 def corpus():
     out = []
+    # seeded change C18-4 (stdin bytes trimmed before sniffing / the library call) escaped an earlier version:
+    # CBOR [1, -1], [1, 10], [1, "a "], [1, 288] on stdin; the library accepts the untrimmed bytes
+    for ci in (True, False):
+        for d, sch in (("w_int_20", "pair_ii"), ("w_int_0a", "pair_ii"), ("w_txt_20", "pair_it"), ("w_a2_20", "pair_ii")):
+            out.append(mk(ci=ci, schema=sch, stdin=d, style=8, cls="corpus"))
     # a defect seeded into root_type_name_from_cddl_str (looked only at the first type rule) escaped an earlier
     # version of this check: first rule generic, root second, {"body":3} valid
     for ci in (True, False):
@@ -652,7 +701,7 @@ def run(tier, seed):
             "rule": "every invocation runs the real binary, the extracted model and the expectation; distinct_nontrivial = distinct "
                     "(schema, flags, document lists) validate invocations whose schema compiles and that name at least one existing document or stdin. "
                     "Classes: corpus = witnesses of the repaired feature-dropping findings on all five call sites; single = every compiling schema x every document x every route (quick: two sampled routes per pair and one sampled configuration; thorough: all routes x 8 of the 24 configurations); "
-                    "root-position = schemas whose root is the 2nd-4th rule (after generic type rules / group rules / defined by /= only) x valid and invalid documents x every route x --ci, exhaustive; sensitive = feature/header/sniffing-deciding schema-document pairs x every route x --ci x every feature list x --csv-header, exhaustive; "
+                    "byte-exact = documents whose first / last byte is 0x09..0x0d or 0x20 (final CBOR integer, last byte of a text / byte string, low byte of a 2/4/8-byte argument, inside an indefinite array, first byte, stray trailing byte, JSON with leading / trailing white space) on --stdin against an accepting and a rejecting schema, and once as a file, exhaustive; root-position = schemas whose root is the 2nd-4th rule (after generic type rules / group rules / defined by /= only) x valid and invalid documents x every route x --ci, exhaustive; sensitive = feature/header/sniffing-deciding schema-document pairs x every route x --ci x every feature list x --csv-header, exhaustive; "
                     "bad-schema = every non-compiling / unreadable / missing schema x --ci x every route; masking = a missing / unreadable / failing document alone, before, after and between valid ones on every file route x --ci, and next to a valid document of another route, exhaustive; compile = compile-cddl on every schema x --ci; "
                     "multi = random 0-3 files per flag + stdin with missing / unreadable / failing documents in random positions; multi-valid = all documents valid",
             "class_histogram": classes,
@@ -664,7 +713,7 @@ def run(tier, seed):
             "features_log_line_checked": n_feat_logged,
             "vm_compute_slice": len(sl),
             "exhaustive": True,
-            "exhaustive_scope": ["root-position: 6 schemas whose root is not the first rule x valid/invalid documents x {json,cbor,csv,stdin} x --ci", "sensitive: 6 schemas x listed documents x {json,cbor,csv,stdin} x --ci x 6 feature lists x --csv-header (csv)",
+            "exhaustive_scope": ["byte-exact: %d edge documents x {accepting, rejecting} schema x --stdin, + one file-route run each" % len(EDGE), "root-position: 6 schemas whose root is not the first rule x valid/invalid documents x {json,cbor,csv,stdin} x --ci", "sensitive: 6 schemas x listed documents x {json,cbor,csv,stdin} x --ci x 6 feature lists x --csv-header (csv)",
                                  "bad-schema: 7 schema defects x --ci x 4 routes", "masking: {missing, directory, non-UTF-8, rejected} x 4 placements x 3 routes x --ci + cross-route pairs", "compile-cddl: %d schema files x --ci" % len(SCHEMAS)],
             "samples": [{"argv": argv_of(inv), "observed": o["canon"], "model": m} for inv, o, m in list(zip(invs, obs, model))[::max(1, len(invs) // 8)][:8]],
         })
